@@ -16,13 +16,39 @@ chk("C11", "model_checking",
     "Every history of {new, derive(p,K), assert(p,q,K), drop+gc} up to depth 5 (quick) / 6 (thorough) over <=4 procedures and key sets from {a,b,c} is executed on the real union-find module (no state merging, module state reset per history) and after every step all pairwise queries for all K are compared with an independent per-field connectivity model; a second layer drives real Procedures through the public API (scheduling ops with/without config effects, partial_eval/transpose/add_assertion) and additionally cross-checks every reported equivalence semantically with the reference interpreter.",
     "trusts the 40-line reference closure and the reference interpreter; bounded depth/procedure count", "DESIGN.md §3 C11")
 
+EXPL = ("hand-written explicit-state explorer (BFS, canonical-form de-duplication) whose transitions call the real scheduling "
+        "primitives; oracle evaluated on every transition")
+chk("C01", "model_checking", EXPL + ": reference-interpreter equivalence on the whole control domain with symbolic data",
+    "Breadth-first exploration from 49 seed procedures over the complete finite menu of (primitive, cursor/argument) events "
+    "(all 57 exported primitives + 20 stdlib compositions; quick depth 1 = 16k transitions, thorough depth 2 with caps reported). "
+    "For every transition that returns a procedure, source and result are executed by an independent LoopIR interpreter on every control "
+    "valuation (sizes, index/bool args, window layouts, control-typed config state) with every data cell a distinct indeterminate, so equality of "
+    "the polynomial normal forms is equality for ALL buffer contents up to real algebra; configuration fields are exempted only if the system reports them.",
+    "trusts the reference interpreter (cross-validated against generated C in C02) and the polynomial normal form; small-scope: seeds, menus and sizes are bounded",
+    "DESIGN.md §3 C01")
+chk("C04", "model_checking", EXPL + ": structural validator + interpreter safety monitors + compile outcome",
+    "Same exploration as C01; every returned procedure is checked by an independent scope/arity/type validator, executed with safety monitors "
+    "(out-of-bounds on views, callee assertions/sizes/shapes, aliasing, negative loops, uninitialised values reaching outputs) on the whole control domain, "
+    "and compiled: anything but success or a documented backend rejection is a violation.",
+    "trusts validator and interpreter; T.Window type annotations are not part of the property and are not checked", "DESIGN.md §3 C04")
+chk("C06", "model_checking", EXPL + ": node-identity forwarding oracle on every statement/gap cursor, edge and chain level",
+    "For every transition p->q (including unsafe-flagged operations) every statement cursor and gap of p, and of every ancestor on the path from the seed, "
+    "is forwarded to q; the result must be InvalidCursorError or resolve (fresh path walk) to the identical carried node object, never to a different carried statement, "
+    "never dangling; implicit forwarding (passing the old cursor to an operation on q) must agree with explicit forwarding.",
+    "identity-based oracle relies on rewrites sharing untouched node objects (true by construction of the cursor layer); rebuilt statements are only checked for non-dangling/ancestor-of-carried-descendants",
+    "DESIGN.md §3 C06")
+chk("C07", "model_checking", EXPL + ": deep fingerprints (content, Sym ids, node identities) of all live procedures before/after every event, successful or failing",
+    "Every event of the full alphabet (including rejected and internally failing ones) is applied and the deep fingerprint and printed form of every live "
+    "procedure (seed, ancestors, callees in scope) is compared before/after; queries (str, find_all) are included.",
+    "fingerprints cover LoopIR content reachable from the procedure; module-level caches are covered by C18", "DESIGN.md §3 C07")
+
 ALL = [f"C{i:02d}" for i in range(1, 20)]
 PENDING_REASON = "check under construction in this session (design in DESIGN.md §3); not claimed until it runs silently on the unchanged tree"
 def main():
     man = dict(version=1,
         setup_cmd="cd /verif && /venv/bin/python -m compileall -q vf >/dev/null; mkdir -p evidence replays; true",
         hooks=dict(guard="EXO_VERIF", enable="checks export EXO_VERIF=1; no source hooks are currently needed (instrumentation is done by wrapping from /verif)",
-                   baseline_off_cmd=BASE["cmd"].replace("--junitxml=<file>", "--junitxml=/tmp/exo_baseline.junit.xml"), source_commits=[], add_only=True),
+                   baseline_off_cmd="PATH=/venv/bin:$PATH " + BASE["cmd"].replace("--junitxml=<file>", "--junitxml=/tmp/exo_baseline.junit.xml").replace("cd /repo &&", "cd /repo && env -u EXO_VERIF"), source_commits=[], add_only=True),
         engines=[dict(name="vf", path="/verif/vf", serves_properties=sorted(CHECKS),
                       kind_free_text="hand-written explicit-state / bounded-exhaustive explorer in Python driving the real exo implementation, with independent reference models (LoopIR interpreter over a polynomial normal form, graph closure, brute-force integer evaluation, gcc+sanitizers)")],
         checks=[CHECKS[k] for k in sorted(CHECKS)],
